@@ -66,6 +66,28 @@ def isValidPropIdent (s : String) : Bool :=
   | [] => false
   | c :: cs => start c && cs.all cont
 
+/-- words `Ident::verify_symbol` rejects: reserved words, words reserved in strict mode / module code, `eval` and `arguments` -/
+def reservedWords : List String :=
+  ["break", "case", "catch", "class", "const", "continue", "debugger", "default", "delete", "do", "else", "enum", "export", "extends",
+   "false", "finally", "for", "function", "if", "import", "in", "instanceof", "new", "null", "package", "return", "super", "switch", "this",
+   "throw", "true", "try", "typeof", "var", "void", "while", "with",
+   "implements", "interface", "let", "private", "protected", "public", "static", "yield", "await", "eval", "arguments"]
+
+/-- identifier start / continue characters; non-ASCII characters are taken as identifier characters (the code asks the Unicode
+    ID_Start / ID_Continue tables, which are not modelled) -/
+def isPragmaStart (c : Char) : Bool := c == '$' || c == '_' || isAsciiLower c || isAsciiUpper c || c.toNat ≥ 128
+def isPragmaCont (c : Char) : Bool := isPragmaStart c || ('0' ≤ c && c ≤ '9')
+
+/-- `Ident::verify_symbol(s).is_ok()` -/
+def isValidSymbol (s : String) : Bool :=
+  !reservedWords.contains s &&
+    (match s.toList with
+     | [] => false
+     | c :: cs => isPragmaStart c && cs.all isPragmaCont)
+
+/-- `util::is_valid_pragma`: an identifier, or identifiers joined by dots -/
+def isValidPragma (p : String) : Bool := ((splitOn '.' p.toList).map String.ofList).all isValidSymbol
+
 /-- `transform_modifiers` -/
 def transformModifiers (mods : List String) (quoteProp : Bool) : Option Node :=
   if mods.isEmpty then none
